@@ -15,6 +15,7 @@ package limit
 // not Allowed (sequence stamps from one atomic counter).
 
 import (
+	"context"
 	"fmt"
 	"sort"
 	"strings"
@@ -55,17 +56,27 @@ func c08WantCode(i, q int) int {
 }
 
 type c08PStep struct {
-	Op  string `json:"op"` // take | ff
+	// take | take-cancelled (context already cancelled) | take-err (server answers
+	// this one command with an error) | take-int7 / take-bulk (server answers with a
+	// value the script never returns) | ff
+	Op  string `json:"op"`
+	L   int    `json:"l,omitempty"`
 	Key int    `json:"k,omitempty"`
 	Ms  int64  `json:"ms,omitempty"`
 }
 
+type c08PLim struct {
+	Period int  `json:"period"`
+	Quota  int  `json:"quota"`
+	Align  bool `json:"align,omitempty"`
+}
+
+// c08PScenario: one or two PeriodLimit instances with different key prefixes on
+// one store, taking from the same key names.
 type c08PScenario struct {
-	Period int        `json:"period"`
-	Quota  int        `json:"quota"`
-	Align  bool       `json:"align,omitempty"`
-	Keys   int        `json:"keys"`
-	Steps  []c08PStep `json:"steps"`
+	Lims  []c08PLim  `json:"limiters"`
+	Keys  int        `json:"keys"`
+	Steps []c08PStep `json:"steps"`
 }
 
 type c08PKey struct {
@@ -88,18 +99,27 @@ func c08GenPeriod(r interface {
 }, steps int) c08PScenario {
 	periods := []int{1, 1, 2, 3, 5, 10, 60, 3600}
 	quotas := []int{1, 2, 2, 3, 5, 8, 13}
-	sc := c08PScenario{
-		Period: periods[r.Intn(len(periods))],
-		Quota:  quotas[r.Intn(len(quotas))],
-		Align:  r.Intn(5) == 0,
-		Keys:   1 + r.Intn(4),
+	sc := c08PScenario{Keys: 1 + r.Intn(4)}
+	for l, nl := 0, 1+r.Intn(2); l < nl; l++ {
+		sc.Lims = append(sc.Lims, c08PLim{Period: periods[r.Intn(len(periods))], Quota: quotas[r.Intn(len(quotas))], Align: r.Intn(5) == 0})
 	}
-	pms := int64(sc.Period) * 1000
 	for i := 0; i < steps; i++ {
-		if r.Float64() < 0.78 {
-			sc.Steps = append(sc.Steps, c08PStep{Op: "take", Key: r.Intn(sc.Keys)})
+		if x := r.Float64(); x < 0.78 {
+			op := "take"
+			switch {
+			case x < 0.025:
+				op = "take-cancelled"
+			case x < 0.045:
+				op = "take-err"
+			case x < 0.06:
+				op = "take-int7"
+			case x < 0.075:
+				op = "take-bulk"
+			}
+			sc.Steps = append(sc.Steps, c08PStep{Op: op, L: r.Intn(len(sc.Lims)), Key: r.Intn(sc.Keys)})
 			continue
 		}
+		pms := int64(sc.Lims[r.Intn(len(sc.Lims))].Period) * 1000
 		var ms int64
 		switch r.Intn(9) {
 		case 0:
@@ -129,71 +149,105 @@ func c08GenPeriod(r interface {
 	return sc
 }
 
-// runC08Period runs one scenario against the real limiter and the counter model.
+// runC08Period runs one scenario against the real limiters and the counter model.
+// The model counts a take iff the server executed its script (pre-hook count):
+// a Take that ended in an error without reaching the script is not a take of the
+// window, and no Take may report Allowed/HitQuota unless the server counted it.
 func runC08Period(m *vk.M, idx int, sc c08PScenario, srv *c08Srv, store *redis.Redis) {
 	mr := srv.mr
 	desc := func() string { return fmt.Sprintf("case=%d;%s", idx, vk.JSON(sc)) }
-	prefix := fmt.Sprintf("c08p%d:", idx)
-	var opts []PeriodOption
-	if sc.Align {
-		opts = append(opts, Align())
+	pls := make([]*PeriodLimit, len(sc.Lims))
+	keys := make([][]c08PKey, len(sc.Lims))
+	for l, lc := range sc.Lims {
+		var opts []PeriodOption
+		if lc.Align {
+			opts = append(opts, Align())
+		}
+		pls[l] = NewPeriodLimit(lc.Period, lc.Quota, store, fmt.Sprintf("c08p%d-%d:", idx, l), opts...)
+		keys[l] = make([]c08PKey, sc.Keys)
 	}
-	pl := NewPeriodLimit(sc.Period, sc.Quota, store, prefix, opts...)
-	keys := make([]c08PKey, sc.Keys)
+	cancelled, cancel := context.WithCancel(context.Background())
+	cancel()
 	var obs strings.Builder
 	over, restarts, takes := 0, 0, 0
-	kind := "plain"
-	if sc.Align {
-		kind = "align"
-	}
 	for si, st := range sc.Steps {
 		if st.Op == "ff" {
 			d := time.Duration(st.Ms) * time.Millisecond
 			mr.FastForward(d)
-			for k := range keys {
-				if keys[k].count > 0 {
-					keys[k].ttl -= d
-					if keys[k].ttl <= 0 {
-						keys[k] = c08PKey{fresh: "after-expiry"}
-						restarts++
+			for l := range keys {
+				for k := range keys[l] {
+					if keys[l][k].count > 0 {
+						keys[l][k].ttl -= d
+						if keys[l][k].ttl <= 0 {
+							keys[l][k] = c08PKey{fresh: "after-expiry"}
+							restarts++
+						}
 					}
 				}
 			}
 			m.Count("period.fastforward", 1)
 			continue
 		}
-		mk := &keys[st.Key]
+		lc := sc.Lims[st.L]
+		kind := "plain"
+		if lc.Align {
+			kind = "align"
+		}
+		mk := &keys[st.L][st.Key]
+		ctx := context.Background()
+		switch st.Op {
+		case "take-cancelled":
+			ctx = cancelled
+		case "take-err":
+			srv.errMode.Store(true)
+		case "take-int7":
+			srv.garbage.Store(c08GarbageInt)
+		case "take-bulk":
+			srv.garbage.Store(c08GarbageBulk)
+		}
 		before := time.Now()
 		e0 := srv.evals.Load()
-		code, err := pl.Take(fmt.Sprintf("k%d", st.Key))
+		code, err := pls[st.L].TakeCtx(ctx, fmt.Sprintf("k%d", st.Key))
 		e := srv.evals.Load() - e0
 		after := time.Now()
+		srv.errMode.Store(false)
+		srv.garbage.Store(0)
 		takes++
-		m.Count("period.take", 1)
-		if e != 1 {
-			// the client repeated the script (read timeout on a stalled machine) or
-			// never reached the server: the number of takes the server counted is not
-			// the number of Take calls, nothing to compare
+		m.Count("period."+st.Op, 1)
+		if e == 0 {
+			// the server did not count this take
+			if err == nil && (code == Allowed || code == HitQuota) {
+				m.Violate("C08:period:admitted-without-counting:"+st.Op, desc(),
+					"step %d (%s): Take(k%d) reported %s with a nil error although the server executed no script for it: the take is admitted but not counted against the quota (%d of %d used in the window)",
+					si, st.Op, st.Key, c08CodeName(code), mk.count, lc.Quota)
+				return
+			}
+			if st.Op == "take" {
+				// never reached the server (stalled machine, client gave up): nothing to compare
+				m.Count("period.abandoned-evals=0", 1)
+				m.Note("case %d step %d: Take executed no script (err=%v); scenario abandoned", idx, si, err)
+				c08TakeErrors.Add(1)
+				return
+			}
+			m.Count("period.not-counted."+st.Op+"."+c08CodeName(code), 1)
+			continue
+		}
+		if e > 1 {
+			// the client repeated the script (read timeout on a stalled machine)
 			m.Count(fmt.Sprintf("period.abandoned-evals=%d", e), 1)
 			m.Note("case %d step %d: Take caused %d EVALs (err=%v); scenario abandoned", idx, si, e, err)
 			return
 		}
-		if err != nil {
-			// an error is not an admission: outside the statement, nothing to compare
-			m.Count("period.take-error(scenario abandoned)", 1)
-			m.Note("case %d step %d: Take(k%d) on a healthy server returned error %v (code %s)", idx, si, st.Key, err, c08CodeName(code))
-			c08TakeErrors.Add(1)
-			return
-		}
+		// exactly one script execution: the take counts in the window
 		phase := "in-window"
 		if mk.count == 0 {
 			phase = "window-start:" + mk.fresh
 			if mk.fresh == "" {
 				phase = "window-start:first"
 			}
-			ttl := sc.Period
-			if sc.Align {
-				t1, t2 := c08AlignTTL(before, sc.Period), c08AlignTTL(after, sc.Period)
+			ttl := lc.Period
+			if lc.Align {
+				t1, t2 := c08AlignTTL(before, lc.Period), c08AlignTTL(after, lc.Period)
 				if t1 != t2 {
 					// a wall-clock second boundary passed during the call: the TTL the
 					// limiter chose is one of two values; do not guess
@@ -205,7 +259,16 @@ func runC08Period(m *vk.M, idx int, sc c08PScenario, srv *c08Srv, store *redis.R
 			mk.ttl = time.Duration(ttl) * time.Second
 		}
 		mk.count++
-		want := c08WantCode(mk.count, sc.Quota)
+		if err != nil {
+			// counted by the server but reported as an error (not an admission): keep the count
+			m.Count("period.counted-but-error."+st.Op, 1)
+			if st.Op == "take" {
+				m.Note("case %d step %d: Take(k%d) on a healthy server returned error %v after its script ran", idx, si, st.Key, err)
+				c08TakeErrors.Add(1)
+			}
+			continue
+		}
+		want := c08WantCode(mk.count, lc.Quota)
 		m.Count("period.code."+c08CodeName(code), 1)
 		obs.WriteByte(byte('0' + code))
 		if code == OverQuota {
@@ -213,15 +276,78 @@ func runC08Period(m *vk.M, idx int, sc c08PScenario, srv *c08Srv, store *redis.R
 		}
 		if code != want {
 			m.Violate(fmt.Sprintf("C08:period:%s:%s:want-%s:got-%s", kind, phase, c08CodeName(want), c08CodeName(code)), desc(),
-				"step %d: take #%d of the current window of key k%d (quota %d, period %ds, remaining ttl %v) reported %s, expected %s",
-				si, mk.count, st.Key, sc.Quota, sc.Period, mk.ttl, c08CodeName(code), c08CodeName(want))
+				"step %d: take #%d of the current window of key k%d of limiter %d (quota %d, period %ds, remaining ttl %v, %d limiters with distinct prefixes on the store) reported %s, expected %s",
+				si, mk.count, st.Key, st.L, lc.Quota, lc.Period, mk.ttl, len(sc.Lims), c08CodeName(code), c08CodeName(want))
 			return
 		}
 	}
-	m.Case(vk.Digest(sc.Period, sc.Quota, sc.Align, obs.String()), over > 0 && restarts > 0)
+	m.Case(vk.Digest(vk.JSON(sc.Lims), obs.String()), over > 0 && restarts > 0)
 	if m.WantSample() && over > 0 && restarts > 0 {
-		m.Sample(map[string]any{"case": idx, "period": sc.Period, "quota": sc.Quota, "align": sc.Align, "keys": sc.Keys,
+		m.Sample(map[string]any{"case": idx, "limiters": sc.Lims, "keys": sc.Keys,
 			"takes": takes, "overquota": over, "window_restarts": restarts, "codes(1=Allowed,2=Hit,3=Over)": c08Trunc(obs.String(), 80)})
+	}
+}
+
+// TestVerifC08PeriodAlignZone observes the TTL that Align() puts on the counter
+// key under several local time zones: the window must end at the next multiple
+// of period in LOCAL time (for periods dividing a day: counted from local
+// midnight). The zone is set through time.Local; tests of this package run one
+// after the other.
+func TestVerifC08PeriodAlignZone(t *testing.T) {
+	m := vk.New(t, "C08", "period limiter Align(): TTL of the counter key after the first take of a window, observed in miniredis, equals the seconds to the next local-time multiple of period, for local zones with whole-hour, half-hour and 45-minute offsets")
+	defer m.Done()
+	defer c08Wall(m, time.Now())
+	srv, err := newC08Srv("c08z")
+	if err != nil {
+		m.Inconclusive("miniredis: %v", err)
+		return
+	}
+	defer srv.mr.Close()
+	store := redis.New(srv.mr.Addr())
+	saved := time.Local
+	defer func() { time.Local = saved }()
+	zones := []int{0, 5*3600 + 1800, -8 * 3600, 14 * 3600, 5*3600 + 2700, -(3*3600 + 1800), 3600, -11 * 3600}
+	periods := []int{60, 900, 1800, 3600, 21600, 86400}
+	idx := 0
+	for zi, off := range zones {
+		time.Local = time.FixedZone(fmt.Sprintf("c08z%d", zi), off)
+		for _, period := range periods {
+			idx++
+			if !m.Only(idx) {
+				continue
+			}
+			desc := fmt.Sprintf("case=%d;{\"zone_offset_s\":%d,\"period\":%d}", idx, off, period)
+			prefix := fmt.Sprintf("c08z%d:", idx)
+			pl := NewPeriodLimit(period, 3, store, prefix, Align())
+			want := func(now time.Time) int {
+				h, mi, s := now.In(time.Local).Clock()
+				return period - (h*3600+mi*60+s)%period
+			}
+			before := time.Now()
+			e0 := srv.evals.Load()
+			code, err := pl.Take("u")
+			e := srv.evals.Load() - e0
+			after := time.Now()
+			if e != 1 || err != nil {
+				m.Count("alignzone.abandoned", 1)
+				continue
+			}
+			w1, w2 := want(before), want(after)
+			got := int(srv.mr.TTL(prefix+"u") / time.Second)
+			m.Count("alignzone.take", 1)
+			if w1 != w2 {
+				m.Count("alignzone.ambiguous", 1)
+				continue
+			}
+			m.Case(vk.Digest(off, period, got), off != 0)
+			if m.WantSample() && off%3600 != 0 {
+				m.Sample(map[string]any{"case": idx, "zone_offset_s": off, "period": period, "local_time": before.In(time.Local).Format("15:04:05"), "ttl_observed": got, "ttl_expected": w1, "code": c08CodeName(code)})
+			}
+			if got != w1 {
+				m.Violate("C08:period:align-ttl", desc, "local zone UTC%+ds, period %ds, local time %s: counter key got TTL %ds, the next local multiple of the period is %ds away", off, period, before.In(time.Local).Format("15:04:05"), got, w1)
+				break
+			}
+		}
 	}
 }
 
